@@ -121,6 +121,7 @@ def programs(tier: str) -> list[dict]:
         # reductions and einsums matter most here: bias the alphabet
         ops = progspace.ALL_OPS + progspace.ALPHABET["reduce"] * 2 + ["einsum", "matmul"] * 2
         progs.append(progspace.random_program(rng, f"t{k}", int(rng.integers(2, 8)), ops=ops))
+    progs += list(progspace.fam_lpcall(rng, 40 if tier == "quick" else 600))
     # directed shapes: a stored node used by two reductions; shared reduction
     x = progspace.inp("x", (3, 4))
     progs.append({"id": "d/two_redn_of_stored", "inputs": [x],
